@@ -73,7 +73,8 @@ func convertReflectValueToType(rv reflect.Value, rt reflect.Type) (reflect.Value
 			return ptrV, nil
 		}
 	}
-	if rv.Type() == interfaceType {
+	if rv.Kind() == reflect.Interface {
+		// interface{} and every other interface type (error, an interface with methods): look at the value inside
 		if rv.IsNil() {
 			// return nil of correct type
 			return reflect.Zero(rt), nil
@@ -162,7 +163,17 @@ func convertVMFunctionToType(rv reflect.Value, rt reflect.Type) (reflect.Value, 
 		// for runVMFunction first arg is always context
 		// TOFIX: use normal context
 		args = append(args, reflect.ValueOf(context.Background()))
+		// a variadic VM function takes its tail as a []interface{}: those arguments are handed over as the values
+		// themselves (Call packs them), only the fixed parameters are reflect.Value typed
+		fixed := rt.NumIn()
+		if rv.Type().IsVariadic() && rv.Type().NumIn()-2 < fixed {
+			fixed = rv.Type().NumIn() - 2
+		}
 		for i := 0; i < rt.NumIn(); i++ {
+			if i >= fixed {
+				args = append(args, in[i])
+				continue
+			}
 			// have to do the double reflect.ValueOf that runVMFunction expects
 			args = append(args, reflect.ValueOf(in[i]))
 		}
@@ -200,7 +211,7 @@ func convertVMFunctionToType(rv reflect.Value, rt reflect.Type) (reflect.Value, 
 		if rv.Kind() != reflect.Slice && rv.Kind() != reflect.Array {
 			panic(fmt.Sprintf("function wants %v return values but received %v", rt.NumOut(), rv.Kind().String()))
 		}
-		if rv.Len() < rt.NumOut() {
+		if rv.Len() != rt.NumOut() {
 			panic(fmt.Sprintf("function wants %v return values but received %v values", rt.NumOut(), rv.Len()))
 		}
 
